@@ -67,7 +67,10 @@ def gen_index(tape, n, label):
             c = -1
         return {"kind": "slice", "a": a, "b": b, "c": c}
     if kind == "mask":
-        return {"kind": "mask", "bits": [bool(tape.draw(2, label + ".bit")) for _ in range(n)]}
+        d = {"kind": "mask", "bits": [bool(tape.draw(2, label + ".bit")) for _ in range(n)]}
+        if tape.boolean(label + ".as_list", 1, 4):
+            d["as_list"] = True           # the mask is handed over as a plain Python list of bools
+        return d
     m = tape.weighted([(2, 1), (3, 2), (2, 3), (1, 5)], label + ".m")
     vals = []
     for _ in range(m):
@@ -294,6 +297,8 @@ class World:
                 key = slice(idx["a"], idx["b"], idx["c"])
             elif idx["kind"] == "mask":
                 key = np.array(idx["bits"][:len(src)] if not raised(call(len, src)) else idx["bits"], dtype=bool)
+                if idx.get("as_list") and len(key):
+                    key = [bool(x) for x in key]
             else:
                 key = list(idx["vals"])
             r = call(lambda: src[key])
